@@ -2,7 +2,9 @@ import LinOp.Core.Parse
 import LinOp.C01.OpTree
 /-! Line-protocol driver for operator TREES: `<X> <Y> <prefix-encoded tree…>` → `eval.mm X # denseSem # eval.tmm Y`.
 Tokens: `dense M | diag v | sum t t | matmul t t | cmul k t | adiag v t | root t | T t | kron t t | catr t t | catc t t |
-bdiag k t…t | binter k t…t | sumb k t…t` (matrices `r1c1,r1c2;…`, vectors as one row). -/
+bdiag k t…t | binter k t…t | sumb k t…t | perm v v | tperm m | chol 0/1 t | mulr t t | lrr t | eye n | cdiag n c | zero n m |
+kern K Kt` (matrices `r1c1,r1c2;…`, vectors as one row).  Output also carries the 1-D products (first columns of X / Y as 1-D
+operands: `op @ x`, `y @ op`) and `Yᵀ @ op` through the base-class `rmatmul`. -/
 open LinOp LinOp.C01 LinOp.Parse
 
 abbrev A2 := Array (Array Rat)
@@ -11,6 +13,10 @@ def colsOf (a : A2) : Nat := if h : 0 < a.size then a[0].size else 0
 def matAs (n m : Nat) (a : A2) : Mat Rat n m := Mat.ofArrays n m a
 def showM {n m : Nat} (M : Mat Rat n m) : String := showMat (Mat.toLists M)
 def vecOf (n : Nat) (a : A2) : Fin n → Rat := fun i => (a[0]!)[i.1]!
+/-- an index map `Fin n → Fin n` from a row of naturals (entries are reduced mod n: the library would raise on them). -/
+def idxOf (n : Nat) (a : A2) : Fin n → Fin n := fun i =>
+  ⟨((a[0]!)[i.1]!).num.toNat % n, Nat.mod_lt _ (Nat.lt_of_le_of_lt (Nat.zero_le _) i.2)⟩
+def showV {n : Nat} (v : Fin n → Rat) : String := showMat [(List.finRange n).map v]
 
 structure AnyOp where
   n : Nat
@@ -88,6 +94,39 @@ partial def parseOp : List String → Option (AnyOp × List String)
     let a ← l.head?
     let bl ← blocksOf k a.n a.m l
     pure (⟨a.n, a.m, .sumBatch bl⟩, r1)
+  | "perm" :: v :: w :: rest => do
+    let a ← parseMat? v
+    let b ← parseMat? w
+    let n := colsOf a
+    pure (⟨n, n, .perm (idxOf n a) (idxOf n b)⟩, rest)
+  | "tperm" :: m :: rest => do
+    let m ← m.toNat?
+    pure (⟨m * m, m * m, .transposePerm⟩, rest)
+  | "chol" :: u :: rest => do
+    let (a, r1) ← parseOp rest
+    if h : a.m = a.n then pure (⟨a.n, a.n, .chol (castOp rfl h a.t) (u == "1")⟩, r1) else none
+  | "mulr" :: rest => do
+    let (a, r1) ← parseOp rest
+    let (b, r2) ← parseOp r1
+    if h : b.n = a.n then pure (⟨a.n, a.n, .mulRoots a.t (castOp h rfl b.t)⟩, r2) else none
+  | "lrr" :: rest => do
+    let (a, r1) ← parseOp rest
+    pure (⟨a.n, a.n, .lowRankRoot a.t⟩, r1)
+  | "eye" :: n :: rest => do
+    let n ← n.toNat?
+    pure (⟨n, n, .identity⟩, rest)
+  | "cdiag" :: n :: c :: rest => do
+    let n ← n.toNat?
+    let c ← parseRat? c
+    pure (⟨n, n, .constDiag c⟩, rest)
+  | "zero" :: n :: m :: rest => do
+    let n ← n.toNat?
+    let m ← m.toNat?
+    pure (⟨n, m, .zero⟩, rest)
+  | "kern" :: K :: Kt :: rest => do
+    let a ← parseMat? K
+    let b ← parseMat? Kt
+    pure (⟨rowsOf a, colsOf a, .kernel (matAs _ _ a) (matAs _ _ b)⟩, rest)
   | _ => none
 partial def parseMany : Nat → List String → Option (List AnyOp × List String)
   | 0, rest => some ([], rest)
@@ -102,8 +141,12 @@ def run (ws : List String) : String :=
   | x :: y :: toks =>
     match parseMat? x, parseMat? y, parseOp toks with
     | some xa, some ya, some (op, []) =>
-      showM (op.t.eval.mm (matAs op.m (colsOf xa) xa)) ++ " # " ++ showM op.t.denseSem ++ " # " ++
-        showM (op.t.eval.tmm (matAs op.n (colsOf ya) ya))
+      let X := matAs op.m (colsOf xa) xa
+      let Y := matAs op.n (colsOf ya) ya
+      showM (op.t.eval.mm X) ++ " # " ++ showM op.t.denseSem ++ " # " ++ showM (op.t.eval.tmm Y) ++ " # " ++
+        showV (matmulVec op.t.eval fun j => if h : 0 < colsOf xa then X j ⟨0, h⟩ else 0) ++ " # " ++
+        showV (rmatmulVec op.t.eval fun i => if h : 0 < colsOf ya then Y i ⟨0, h⟩ else 0) ++ " # " ++
+        showM (rmatmul op.t.eval (Mat.transpose Y))
     | _, _, _ => "bad"
   | _ => "bad"
 
